@@ -215,4 +215,136 @@ theorem slowDomain_core {F : FTy} (hF : IsLemireFloat F) {p eb : Nat} (lay : Lay
         exact ⟨Nat.lt_of_lt_of_le g1 hcapp, Nat.lt_of_lt_of_le g2 hcapp⟩
   · exact bracket_of_est2 lay cl ch hcl hch hch0 est _ _ hlitpos hestLit
 
+/-! ## what `bellerophon` hands over -/
+
+/-- the decimal tables of a `compact` build -/
+abbrev compactP : Gen.Bellerophon.Powers := Gen.Bellerophon.CompactRadix.powers 10
+
+/-- `bellPrepare` gets past its early exits only inside the table -/
+theorem bellPrepare_mid_range {F : FTy} (n : Num) {fp : ExtendedFloat80} {e : Nat}
+    (h : Bellerophon.bellPrepare F compactP n = .mid fp e) :
+    n.mantissa ≠ 0 ∧ -350 ≤ n.exponent ∧ n.exponent ≤ 309 := by
+  have hbias : compactP.bias = 350 := by decide
+  have hstep : compactP.step = 10 := by decide
+  have hsize : compactP.large.size = 66 := by decide
+  have h31 : (2 : Int) ^ 31 = 2147483648 := by norm_num
+  unfold Bellerophon.bellPrepare Bellerophon.litExpCut at h
+  simp only [] at h
+  split at h
+  · exact absurd h (by simp)
+  · rename_i c1
+    split at h
+    · exact absurd h (by simp)
+    · rename_i c2
+      have hw1 : wrapI32 n.exponent = n.exponent := LexVerif.Proof.Slow.wrapI32_eq (by omega) (by omega)
+      rw [hw1, hbias, hstep] at h
+      have hw2 : wrapI32 (n.exponent + 350) = n.exponent + 350 := LexVerif.Proof.Slow.wrapI32_eq (by omega) (by omega)
+      rw [hw2] at h
+      rw [if_neg (by decide)] at h
+      split at h
+      · exact absurd h (by simp)
+      · rename_i c3
+        split at h
+        · exact absurd h (by simp)
+        · rename_i c4
+          rw [hsize] at c4
+          refine ⟨fun h0 => c1 (Or.inl h0), by omega, ?_⟩
+          have h2 : Int.tdiv (n.exponent + 350) 10 < 66 := by omega
+          have := Int.lt_tdiv_add_one_mul_self (n.exponent + 350) (show (0 : Int) < 10 by decide)
+          omega
+
+/-- an invalid-marked answer of `bellerophon` comes from inside the table: `−350 ≤ exponent ≤ 309`, mantissa non-zero -/
+theorem bell_invalid_range {F : FTy} (hF : IsLemireFloat F) (n : Num) {fp : ExtendedFloat80}
+    (h : Bellerophon.bellerophon F compactP n false = .ok fp) (hinv : fp.exp < 0) :
+    n.mantissa ≠ 0 ∧ -350 ≤ n.exponent ∧ n.exponent ≤ 309 := by
+  have hinfp : 0 ≤ F.C.infinitePower := by rcases hF with h | h <;> subst h <;> decide
+  unfold Bellerophon.bellerophon at h
+  cases hprep : Bellerophon.bellPrepare F compactP n with
+  | zero => rw [hprep] at h; simp only [] at h; injection h with h; subst h; exact absurd hinv (by decide)
+  | inf => rw [hprep] at h; simp only [] at h; injection h with h; subst h; simp only at hinv; omega
+  | panic => rw [hprep] at h; exact absurd h (by simp)
+  | mid fp0 e => exact bellPrepare_mid_range n hprep
+
+theorem est2_mono {F : FTy} {p : Nat} {est : ExtendedFloat80} {cl ch ch' num den : Nat}
+    (h : Est2 F p est cl ch num den) (hle : ch ≤ ch') : Est2 F p est cl ch' num den := by
+  obtain ⟨h1, h2, h3, h4⟩ := h
+  refine ⟨h1, h2, h3, Nat.lt_of_lt_of_le h4 ?_⟩
+  exact Nat.mul_le_mul_right _ (Nat.mul_le_mul_right _ (by omega))
+
+/-- the booked truncation error of a 19-digit mantissa is at most 33 units -/
+theorem clz_small {w : Nat} (h1 : 2 ^ 59 ≤ w) (h2 : w < 2 ^ 64) : 2 * 2 ^ clz64 w + 1 ≤ 33 := by
+  obtain ⟨_, _, hlt, _⟩ := LexVerif.Proof.BinaryCorrect.clz_norm (M := w) (by
+    have := Nat.two_pow_pos 59; omega) h2
+  have : 2 ^ 59 * 2 ^ clz64 w < 2 ^ 59 * 2 ^ 5 := by
+    calc 2 ^ 59 * 2 ^ clz64 w ≤ w * 2 ^ clz64 w := Nat.mul_le_mul_right _ h1
+      _ < 2 ^ 64 := hlt
+      _ = 2 ^ 59 * 2 ^ 5 := by norm_num
+  have h5 := Nat.lt_of_mul_lt_mul_left this
+  have h4 : clz64 w < 5 := (Nat.pow_lt_pow_iff_right (by decide : 1 < 2)).mp h5
+  have h16 : 2 ^ clz64 w ≤ 2 ^ 4 := Nat.pow_le_pow_right (by decide) (by omega)
+  omega
+
+/-- **`SlowDomain` and the bracket for what `bellerophon` hands over** (`compact` builds, decimal): the `Number`'s words
+and the digits are related by `hkey`; `(M, cnt)` is what `parse_mantissa` keeps; the value of all the digits and `M / 10^j`
+are true values of the `Number` in the sense of `Proof.Bell.TrueValue` (equal to `w·10^q`, or in `[w, w+1)·10^q` for a
+truncated mantissa). -/
+theorem slowDomain_bell {F : FTy} (hF : IsLemireFloat F) {p eb : Nat} (lay : Layout F p eb) (c : Cfg)
+    (hr : c.mantissaRadix = 10) (hb : c.exponentBase = 10) (n : Number) (hs : PlainSlices c n)
+    (hne : sigBytes n.integer n.fraction ≠ [])
+    (hw64 : n.mantissa < 2 ^ 64) (hmw : n.manyDigits = true → 2 ^ 59 ≤ n.mantissa)
+    (hkey : ∀ T : Nat, 10 ^ T ≤ n.mantissa → n.mantissa < 10 ^ (T + 1) →
+      n.exponent + T + 1 - ((sigBytes n.integer n.fraction).length : Int) =
+        n.explicitExp - ((n.fraction.getD []).length : Int))
+    (d : Nat) (hd : (Slow.envOf c.feats).S.maxDigits F.fmt 10 = some d)
+    (M cnt : Nat) (hmo : C01Slow.mantissaOf 10 d (sigBytes n.integer n.fraction) = (M, cnt))
+    (hMlt : M < 10 ^ cnt) (hcnt : cnt ≤ 770)
+    (htvLit : TrueValue 10 (numOf n) (litFrac 10 10 (numberLit c n)).1 (litFrac 10 10 (numberLit c n)).2)
+    (htvM : ∀ T : Nat, 10 ^ T ≤ n.mantissa → n.mantissa < 10 ^ (T + 1) → n.exponent + T + 1 - (cnt : Int) < 0 →
+      TrueValue 10 (numOf n) M (10 ^ (-(n.exponent + T + 1 - (cnt : Int))).toNat))
+    (fp : ExtendedFloat80) (hbel : Bellerophon.bellerophon F compactP (numOf n) false = .ok fp) (hinv : fp.exp < 0) :
+    SlowDomain c F p n { fp with exp := fp.exp - invalidFp } d ∧
+    Bracket F fp (litFrac 10 10 (numberLit c n)).1 (litFrac 10 10 (numberLit c n)).2 := by
+  have FN := floatNums_of hF lay
+  have hp53 := FN.p53
+  have h30 : (2 : Int) ^ 30 = 1073741824 := by norm_num
+  have h20 : (2 : Int) ^ 20 = 1048576 := by norm_num
+  obtain ⟨hw0, hq1, hq2⟩ := bell_invalid_range hF (numOf n) hbel hinv
+  have hw0' : n.mantissa ≠ 0 := hw0
+  have hq1' : -350 ≤ n.exponent := hq1
+  have hq2' : n.exponent ≤ 309 := hq2
+  have hc := bellFacts_of (bellCheck_compact 10 (by decide))
+  obtain ⟨T, t1, t2, t3⟩ := scientificExponent_spec (radix := 10) (by decide) (by decide)
+    (Nat.pos_of_ne_zero hw0') hw64 (e := n.exponent) (by omega) (by omega)
+  have hT19 : T ≤ 19 := by
+    have : 10 ^ T < 10 ^ 20 := Nat.lt_of_le_of_lt t1 (Nat.lt_trans hw64 pow10_20)
+    have := (Nat.pow_lt_pow_iff_right (by decide : 1 < 10)).mp this
+    omega
+  have hsci : sciOf c n = n.exponent + T := by unfold sciOf; rw [hr, t3]
+  have hmw44 : (numOf n).manyDigits = true → 2 ^ 44 ≤ (numOf n).mantissa := by
+    intro hm
+    have := hmw hm
+    have h4459 : (2 : Nat) ^ 44 ≤ 2 ^ 59 := by decide
+    exact Nat.le_trans h4459 this
+  have hch41 : (8 + if (numOf n).manyDigits then 2 * 2 ^ clz64 (numOf n).mantissa + 1 else 0) ≤ 41 := by
+    by_cases hm : (numOf n).manyDigits = true
+    · rw [if_pos hm]
+      have := clz_small (hmw hm) hw64
+      have e : (numOf n).mantissa = n.mantissa := rfl
+      rw [e]; omega
+    · rw [if_neg hm]; omega
+  have hlitpos : 0 < (litFrac 10 10 (numberLit c n)).2 := litFrac_den_pos (by decide) (by decide) _
+  obtain ⟨e1, e2, hE2⟩ := bellerophon_invalid_est lay hc (numOf n) hw64 hmw44 _ _ hlitpos htvLit hbel hinv
+  have h16 : 4 * 4 ≤ 2 ^ (64 - p) := by
+    calc 4 * 4 ≤ 2 ^ 11 := by decide
+      _ ≤ 2 ^ (64 - p) := Nat.pow_le_pow_right (by decide) (by omega)
+  have h82 : 2 * 41 ≤ 2 ^ (64 - p) := by
+    calc 2 * 41 ≤ 2 ^ 11 := by decide
+      _ ≤ 2 ^ (64 - p) := Nat.pow_le_pow_right (by decide) (by omega)
+  obtain ⟨D, hwb⟩ := slowDomain_core hF lay c hr hb n hs hne (n.exponent + T) hsci (by omega) (by omega)
+    (hkey T t1 t2) d hd M cnt hmo hMlt hcnt { fp with exp := fp.exp - invalidFp } (by dsimp only; omega)
+    4 41 h16 (by decide) h82 (by decide) (est2_mono hE2 hch41)
+    (fun hneg => est2_mono (bellerophon_invalid_est lay hc (numOf n) hw64 hmw44 _ _ (Nat.pow_pos (by decide))
+      (htvM T t1 t2 hneg) hbel hinv).2.2 hch41)
+  exact ⟨D, hwb⟩
+
 end LexVerif.Props.C01Compact
